@@ -80,7 +80,9 @@ func C18_Keys() {
 	fam := vf.Choice("family", 10)
 	l1, l2 := 1+vf.Choice("len1", 2), 1+vf.Choice("len2", 2)
 	n1, n2 := name("n1", l1), name("n2", l2)
-	p1, p2 := sdk.AccAddress(vf.Bytes("p1", 20)), sdk.AccAddress(vf.Bytes("p2", 20))
+	// provider addresses: 20 bytes, or one of them longer (stateless validation admits any length); the
+	// provider-keyed families below must stay exact then, too
+	p1, p2 := sdk.AccAddress(vf.Bytes("p1", 20)), sdk.AccAddress(vf.Bytes("p2", 20+2*vf.Choice("p2extra", 2)))
 	o1, o2 := sdk.AccAddress(vf.Bytes("o1", 20)), sdk.AccAddress(vf.Bytes("o2", 20))
 	id1, id2 := vf.Bytes("id1", 40), vf.Bytes("id2", 40)
 	h1, h2 := vf.Int64("h1"), vf.Int64("h2")
@@ -120,8 +122,9 @@ func C18_Keys() {
 	case 5: // volumes
 		c1, c2 := sdk.AccAddress(vf.Bytes("c1", 20)), sdk.AccAddress(vf.Bytes("c2", 20))
 		vf.Assert(vf.Implies(bytes.Equal(types.GetRequestVolumeKey(c1, n1, p1), types.GetRequestVolumeKey(c2, n2, p2)), vf.All(c1.Equals(c2), sameN, sameP)), "volume-key-injective")
-	case 6: // earnings, equal address lengths
-		vf.Assert(vf.Implies(bytes.HasPrefix(types.GetEarnedFeesKey(p2, Denom), types.GetEarnedFeesSubspace(p1)), sameP), "earnings-scan-exact-equal-lengths")
+	case 6: // earnings, equal address lengths (different lengths: known finding F6, see C18_EarnedPrefix)
+		q2 := sdk.AccAddress(p2[:20])
+		vf.Assert(vf.Implies(bytes.HasPrefix(types.GetEarnedFeesKey(q2, Denom), types.GetEarnedFeesSubspace(p1)), p1.Equals(q2)), "earnings-scan-exact-equal-lengths")
 		vf.Assert(vf.Implies(bytes.HasPrefix(types.GetOwnerEarnedFeesKey(o2, Denom), types.GetOwnerEarnedFeesSubspace(o1)), sameO), "owner-earnings-scan-exact")
 	case 7: // parsing a by-owner index key back into service and provider (GetOwnerServiceBindings)
 		key := types.GetOwnerServiceBindingKey(o1, n1, p1)
